@@ -15,7 +15,7 @@ def gen_case(rng):
     if rng.random() < 0.2:
         from .. import trained
         return {'train': trained.gen_train_case(rng, max_len_choices=(21,), coverages=(0.6, 1.0, 0.3)), 'spec': {'base': ['(trained)']},
-                'flags': {'skip_brute': True, 'all_lower': rng.random() < 0.3, 'folder': rng.choice(['Grammar', 'Grammar', 'Prince'])}}
+                'flags': {'skip_brute': rng.random() < 0.5, 'all_lower': rng.random() < 0.3, 'folder': rng.choice(['Grammar', 'Grammar', 'Prince'])}}
     mg, xg, ml = rng.choice([(1, 4, 4), (2, 5, 3), (3, 6, 3), (2, 4, 5)])
     spec = rulesets.gen_spec(rng, min_groups=mg, max_groups=xg, max_len=ml, pool=rng.choice(['dyadic', 'dyadic3', 'equal', 'decimal', 'thirds', 'counts', 'tiny', 'random', 'nearties']))
     if spec.get('omen') and len(spec['omen']['probs']) >= 2 and rng.random() < 0.5:
